@@ -16,7 +16,7 @@ use serde::{Deserialize, Serialize};
 
 const ID: &str = "C10";
 
-pub const STATE_KINDS: [&str; 5] = ["fresh", "evolved", "after_completed_transfer", "after_abandoned_transfer", "optional_contracts_unregistered"];
+pub const STATE_KINDS: [&str; 6] = ["fresh", "evolved", "after_completed_transfer", "after_abandoned_transfer", "optional_contracts_unregistered", "optional_contracts_partially_registered"];
 pub const SENDERS: [&str; 16] = [
     "owner_now", "nominee_now", "ex_owner", "hub", "bsei", "stsei", "reward", "dispatcher", "registry", "swap", "oracle", "airdrop", "updater", "keeper", "user", "self",
 ];
@@ -169,6 +169,25 @@ pub fn setup(kind: u8, seed: u32) -> Setup {
             )
             .unwrap();
             w.instantiate(Kind::Dispatcher, OWNER, DISP, &dispatcher_init(&cfg)).unwrap();
+            if kind == 5 {
+                // a staged deployment: only the siblings selected by the low six bits of the payload are registered
+                let on = |bit: u32, a: &str| if seed & (1 << bit) != 0 { Some(a.to_string()) } else { None };
+                w.tx(
+                    OWNER,
+                    HUB,
+                    &HubExec::UpdateConfig {
+                        rewards_dispatcher_contract: on(0, DISP),
+                        validators_registry_contract: on(1, REG),
+                        bsei_token_contract: on(2, BSEI),
+                        stsei_token_contract: on(3, STSEI),
+                        airdrop_registry_contract: on(4, AIRDROP),
+                        rewards_contract: on(5, REWARD),
+                        update_reward_index_addr: None,
+                    },
+                    &[],
+                )
+                .expect("partial update_config");
+            }
             s.w = w;
         }
     }
@@ -413,6 +432,14 @@ impl Prop for C10 {
         for state in 0..STATE_KINDS.len() as u8 {
             for variant in 0..VARIANTS.len() as u8 {
                 for sender in 0..SENDERS.len() as u8 {
+                    if state == 5 {
+                        // every "exactly one sibling registered" and "exactly one sibling missing" deployment
+                        for bit in 0..6u32 {
+                            v.push(Case::Triple { state, variant, sender, payload: 1 << bit });
+                            v.push(Case::Triple { state, variant, sender, payload: 63 ^ (1 << bit) });
+                        }
+                        continue;
+                    }
                     for p in 0..payloads {
                         v.push(Case::Triple { state, variant, sender, payload: p.wrapping_mul(2654435761).wrapping_add(p) });
                     }
